@@ -32,6 +32,9 @@ func (p *Point) UnmarshalCBOR(data []byte) error {
 	if err != nil {
 		return errs.Wrap(err).WithMessage("failed to unmarshal point")
 	}
+	if dto == nil {
+		return errs.Wrap(serde.ErrNull).WithMessage("failed to unmarshal point")
+	}
 
 	pp, err := NewCurve().FromUncompressed(dto.AffineUnompressedBytes)
 	if err != nil {
@@ -52,6 +55,9 @@ func (p *PrimeSubGroupPoint) UnmarshalCBOR(data []byte) error {
 	dto, err := serde.UnmarshalCBOR[*pointDTO](data)
 	if err != nil {
 		return errs.Wrap(err).WithMessage("failed to unmarshal point")
+	}
+	if dto == nil {
+		return errs.Wrap(serde.ErrNull).WithMessage("failed to unmarshal point")
 	}
 
 	pp, err := NewPrimeSubGroup().FromUncompressed(dto.AffineUnompressedBytes)
